@@ -149,10 +149,15 @@ def run(pid, tier, seed, replay):
         rt.gv["none"] = True
         for s in d["states"]:
             value = harness.decode_value(s["value"]) if s.get("value") is not None else s["id"]
-            for how in ("placed", "driven"):
+            for how in ("placed", "driven", "started"):
                 if how == "placed":
                     sm.current_state_value = value
                     inst = sm
+                elif how == "started":
+                    try:     # an instance whose life began in this state (start_value): the picture is of the MACHINE
+                        inst = b.cls(start_value=value)
+                    except Exception:  # noqa: BLE001
+                        continue
                 else:
                     try:
                         inst = drive(rng, b.cls, d, s["id"])
@@ -203,5 +208,5 @@ def run(pid, tier, seed, replay):
                          "rule": ("random definitions of 1-5 states / up to 12 transitions (guards as cond and unless, multi-event, self, "
                                   "internal, parallel transitions, final states; state values of every kind incl. falsy ones, shared "
                                   "display names); the class and an instance in every state as current state, placed through the "
-                                  "setter and reached by real events; distinct = (#states, #transitions, class-or-instance, #internal transitions)")})
+                                  "setter, reached by real events and started there with start_value; distinct = (#states, #transitions, class-or-instance, #internal transitions)")})
     return chk.finish()
